@@ -2,7 +2,7 @@
 # usage: confirm_seeded.sh <deliver-dir> <name>   - confirms a candidate seeded change in a scratch worktree and stores it under /verif/seeded/<name>
 # checks: patch applies; crate builds; existing tests pass with the patch; demo fails with the patch and passes without it
 set -u
-D=$1; NAME=$2; WT=/tmp/confirm_wt
+D=$1; NAME=$2; WT=${CONFIRM_WT:-/tmp/confirm_wt}
 [ -d $WT ] || git -C /repo worktree add -q --detach $WT HEAD
 cd $WT && git checkout -q --detach $(git -C /repo rev-parse HEAD) && git checkout -- . && git clean -fdq -e target
 mkdir -p tests && cp $D/demo.rs tests/demo.rs
